@@ -1182,6 +1182,84 @@ func (c *Ctx) errorDisciplineOn(rule, fname string, info *types.Info, g *cfgx.Gr
 	return n
 }
 
+// iteratorBuffers: rule (v) of the iterator discipline, also for functions the discipline is not otherwise applied to.
+func (c *Ctx) iteratorBuffers(rule string, fi *load.FuncInfo) {
+	r := c.R
+	info := fi.Info()
+	iterCall := func(call *ast.CallExpr, names ...string) bool {
+		se, ok := ast.Unparen(call.Fun).(*ast.SelectorExpr)
+		if !ok {
+			return false
+		}
+		fn := astx.Callee(info, call)
+		if fn == nil || fn.Pkg() == nil || !strings.HasSuffix(fn.Pkg().Path(), "goleveldb/leveldb/iterator") {
+			return false
+		}
+		for _, nm := range names {
+			if se.Sel.Name == nm {
+				return true
+			}
+		}
+		return false
+	}
+	// (v) what Key() / Value() return belongs to the iterator and is overwritten by the next move: it is used on the spot
+	// (written, put into a batch, decoded, copied), not kept — not sent on a channel, appended as an element, or stored in a
+	// field, an element or a composite literal as it is. (Function literals included: a reader goroutine that queues values.)
+	{
+		isBuf := func(e ast.Expr) *ast.CallExpr {
+			call, ok := ast.Unparen(e).(*ast.CallExpr)
+			if ok && iterCall(call, "Key", "Value") {
+				return call
+			}
+			return nil
+		}
+		keep := func(call *ast.CallExpr, how string) {
+			r.Fail(rule, fi.Name(), "the iterator's buffer is not kept beyond the step", c.P.Pos(call.Pos()),
+				"the slice returned by "+astx.Str(call.Fun)+"() is "+how+" without a copy: goleveldb reuses that buffer when the iterator moves, so what was kept turns into a later entry's bytes — records are duplicated, lost or torn")
+		}
+		ast.Inspect(fi.Body(), func(n ast.Node) bool {
+			switch x := n.(type) {
+			case *ast.SendStmt:
+				if call := isBuf(x.Value); call != nil {
+					keep(call, "sent on a channel")
+				}
+			case *ast.CallExpr:
+				if astx.Builtin(info, x) == "append" && !x.Ellipsis.IsValid() {
+					for _, a := range x.Args[1:] {
+						if call := isBuf(a); call != nil {
+							keep(call, "appended to a slice")
+						}
+					}
+				}
+			case *ast.CompositeLit:
+				for _, el := range x.Elts {
+					v := el
+					if kv, ok := el.(*ast.KeyValueExpr); ok {
+						v = kv.Value
+					}
+					if call := isBuf(v); call != nil {
+						keep(call, "stored in a composite literal")
+					}
+				}
+			case *ast.AssignStmt:
+				if len(x.Lhs) == len(x.Rhs) {
+					for i, rh := range x.Rhs {
+						call := isBuf(rh)
+						if call == nil {
+							continue
+						}
+						switch ast.Unparen(x.Lhs[i]).(type) {
+						case *ast.SelectorExpr, *ast.IndexExpr:
+							keep(call, "stored in "+astx.Str(x.Lhs[i]))
+						}
+					}
+				}
+			}
+			return true
+		})
+	}
+}
+
 // iteratorDiscipline: LevelDB iterators are only read where they are positioned on an entry.
 //
 //	(i)   the boolean result of First/Last/Next/Prev/Seek is not discarded;
@@ -1236,6 +1314,7 @@ func (c *Ctx) iteratorDiscipline(rule string, fi *load.FuncInfo) int {
 				"the boolean result of "+astx.Str(call.Fun)+" is discarded: whether the iterator stands on an entry is unknown at the following Key()/Value()")
 		}
 	}
+	c.iteratorBuffers(rule, fi)
 	if nPos == 0 {
 		return 0
 	}
